@@ -48,7 +48,8 @@ def decide(ctx, rule, table, qualname, cell_fn, max_report=6, min_cells=1, key_n
             if str(cell_key) not in mismatches:
                 mismatches[str(cell_key)] = (actual, expected, chooser.record())
     what = "%s decision table of %s" % (table, qualname.replace("cutplace.", ""))
-    if cells < min_cells:
+    if cells < min_cells and not mismatches:
+        # (a table that shrank AND has mismatching cells reports the mismatches: they are real whatever the size)
         raise AnalysisError("table %s/%s produced %d cells, expected at least %d" % (rule, table, cells, min_cells))
     if not mismatches:
         ctx.res.ok(rule, what, True, {"cells": cells, "sample": sample}, cells=cells)
@@ -93,7 +94,7 @@ def decide_kinds(ctx, rule, table, qualname, cell_fn, min_cells=1, key_name=None
             if len(entry["cells"]) < 5:
                 entry["cells"].append("%s: %s" % (cell_key, detail))
     what = "%s decision table of %s" % (table, qualname.replace("cutplace.", ""))
-    if cells < min_cells:
+    if cells < min_cells and not kinds:
         raise AnalysisError("table %s/%s produced %d cells, expected at least %d" % (rule, table, cells, min_cells))
     if not kinds:
         ctx.res.ok(rule, what, True, {"cells": cells, "sample": sample}, cells=cells)
